@@ -94,23 +94,6 @@ func c15GenLaw() *rapid.Generator[c15LawCase] {
 	})
 }
 
-// c15LawExclude rewrites the shape of known findings (generator side only;
-// replay files are executed as they are).
-func c15LawExclude(c *c15LawCase, col *verifkit.Collector) {
-	if verifkit.Known("ebbinghaus-negative-count-nan") {
-		hit := false
-		for i, k := range c.Counts {
-			if k < -1 {
-				c.Counts[i] = -1
-				hit = true
-			}
-		}
-		if hit {
-			col.Excluded("ebbinghaus-negative-count-nan")
-		}
-	}
-}
-
 func c15LawNonTrivial(c c15LawCase) bool {
 	if !(c.H > 0) {
 		return false
@@ -425,7 +408,6 @@ func TestVerif_C15_laws(t *testing.T) {
 	verifkit.RapidSetup(40000, 1000000)
 	rapid.Check(t, func(rt *rapid.T) {
 		c := c15GenLaw().Draw(rt, "case")
-		c15LawExclude(&c, col)
 		col.Case(c, c15LawNonTrivial(c), c15LawLabels(c)...)
 		msg, ticked := c15RunLaw(c)
 		if ticked {
